@@ -88,7 +88,7 @@ def run(tier, seed, repo, build, out, flavours, zoo, builder=None):
     t0 = time.time()
     sp = specs(flavours)
     bins = check.build_all(sp, flavours)
-    n = 40000 if tier == "quick" else 400000
+    n = 250000 if tier == "quick" else 2500000
     rng = random.Random(seed * 104729 + 7)
     cases = [gen_case(rng) for _ in range(n)]
     rundir = os.path.join(build, 'run', 'c15-%d' % os.getpid())
